@@ -189,23 +189,18 @@ func (r *runner) syncWake(t int) {
 	if m == nil || !m.token || !m.gotWake {
 		return
 	}
-	r.noteWake(t) // it may already be back at Lock
-	if !m.token || !r.parked(t) {
-		return
-	}
-	if r.waitEvt(t, curTimeout()) {
-		r.noteWake(t)
-		return
-	}
-	if len(m.wakeCh) == 0 {
+	if r.parked(t) && !r.waitEvt(t, curTimeout()) {
+		if len(m.wakeCh) != 0 {
+			return // the token is still there: the loop is just not in its select (yet)
+		}
 		// give a slow machine more time before calling it a dropped token
-		if r.waitEvt(t, 4*curTimeout()) {
-			r.noteWake(t)
+		if !r.waitEvt(t, 4*curTimeout()) {
+			m.token = false
+			r.w.emit(fmt.Sprintf("WD.%x", t))
 			return
 		}
-		m.token = false
-		r.w.emit(fmt.Sprintf("WD.%x", t))
 	}
+	r.noteWake(t) // it is (or already was) back at Lock
 }
 
 func (r *runner) grant(t int, p *waitPoint) {
